@@ -235,12 +235,13 @@ def meta(tier):
                 'numeric_bytecode range, zone end := 2^bits, start := end+1, start := -1; (c) min_version := x.y.z[pre] over '
                 'x in {0,1}, y,z in {0,2,3,4,5,9,10,30}, pre in {none,a1,b1,b2}; (d) #require "<name> <op> <v>" over 3 language names (with hyphen, period, underscore) x ISA version x '
                 '5 operators x an 8-version pool whose numeric and lexical orders differ x {matching, other} name; '
+                '(e) every program of two or three #require lines drawn from 8 (4 satisfied, 4 not; same or another language) in one file or split between the main file and an included one, accepted iff every line is satisfied; '
                 'non-trivial = every fault / grid point (each is a distinct definition or line)',
         'bounds': {'keywords': KEYWORDS, 'running_version': RUNNING, 'format_floor': FLOOR},
         'assumptions': ['version ordering: integer triple, then pre-release rank a < b < release (computed here, not by packaging)',
                         'not judged: register names equal to a keyword in a different letter case'],
         'floors': {'evaluations': 500, 'nontrivial': 500, 'statuses': ['OK', 'REJECT'],
-                   'clauses': ['base-loads', 'fault-rejected', 'min-version', 'require']},
+                   'clauses': ['base-loads', 'fault-rejected', 'min-version', 'require', 'several-requirements']},
         'nshards': 64, 'xcheck': 12,
     }
 
@@ -318,7 +319,36 @@ def shard(acc, tier, idx, n):
             isa = probe_isa(16, 'little', name=lang_ok, version='1.2.3')
             src = f'#require "{lang_ok if name_ok else lang_other}"\n    .byte 1\n'
             load(acc, isa, False, name_ok, 'bare #require', 'require', src=src)
-    file_named_languages(acc, idx, n, ctr)
+    ctr = file_named_languages(acc, idx, n, ctr)
+    several_requirements(acc, idx, n, ctr, q)
+
+
+def several_requirements(acc, idx, n, ctr0, q):
+    """Programs with two or three #require lines, in one file or spread over the main file and an included one: accepted iff every
+    line on its own is satisfied (each line is honoured, whatever other lines say about the same language)."""
+    ctr = ctr0
+    for lang, other in (('lang-x', 'lang-y'), ('acme.cpu16', 'acme.cpu1')):
+        lines = [(f'#require "{lang} >= 1.0.0"', True), (f'#require "{lang} < 2.0.0"', True), (f'#require "{lang}"', True),
+                 (f'#require "{lang} == 1.5.0"', True), (f'#require "{lang} < 1.2.0"', False), (f'#require "{lang} > 1.5.0"', False),
+                 (f'#require "{other}"', False), (f'#require "{other} >= 1.0.0"', False)]
+        isa = probe_isa(16, 'little', name=lang, version='1.5.0')
+        for k in (2, 3):
+            for combo in itertools.product(lines, repeat=k):
+                ok = all(sat for _, sat in combo)
+                texts = [t for t, _ in combo]
+                layouts = [('one file', {'main.asm': '\n'.join(texts) + '\n    .byte 1\n'}),
+                           ('last line in an included file', {'main.asm': '\n'.join(texts[:-1]) + '\n#include "req.asm"\n    .byte 1\n',
+                                                              'req.asm': texts[-1] + '\n'}),
+                           ('first lines in an included file', {'main.asm': '#include "req.asm"\n' + texts[-1] + '\n    .byte 1\n',
+                                                                'req.asm': '\n'.join(texts[:-1]) + '\n'})]
+                if k == 3:
+                    layouts = layouts[:1] if q else layouts[:2]
+                for lname, files in layouts:
+                    ctr += 1
+                    if ctr % n != idx:
+                        continue
+                    load(acc, isa, False, ok, f'{" / ".join(texts)} ({lname}) against {lang} 1.5.0', 'several-requirements', src=files)
+    return ctr
 
 
 def file_named_languages(acc, idx, n, ctr0):
